@@ -68,10 +68,24 @@ class C13(Prop):
             t = t + k * P
             stamps.append(t)
         mode = rng.choice(['online', 'online_only', 'offline', 'offline_only'])
+        epoch = None
+        if rng.random() < 0.12:
+            # integer time-stamps of epoch size (e.g. nanoseconds since 1970, beyond 2**53): exact as Python ints
+            unit = rng.choice(['ns', 'ns', 'us'])
+            P = Fr(period) * U[punit] / U[unit]
+            if P.denominator == 1 and P >= 8:
+                t = Fr(rng.choice([1700000000000000000, 1700000000123456789, 2 ** 60 + 12345]) if unit == 'ns' else
+                       rng.choice([1700000000000000, 2 ** 55 + 777]))
+                stamps = [t]
+                for _ in range(n - 1):
+                    k = rng.choice([Fr(1), Fr(1), Fr(1), 1 + Fr(tol), 1 - Fr(tol), 1 + Fr(tol) + Fr(1, 8), Fr(3, 4), Fr(2)])
+                    t = t + int(k * P)
+                    stamps.append(t)
+                epoch = [int(x) for x in stamps]
         self._after_reset = None
         if mode.startswith('online') and rng.random() < 0.25:
             self._after_reset = [float(Fr(k) * P * rng.choice([1, 1, 3])) for k in range(rng.randint(1, 4))]
-        return {'period': [period, punit], 'unit': unit, 'tol': tol, 'stamps': [float(s) for s in stamps],
+        return {'period': [period, punit], 'unit': unit, 'tol': tol, 'stamps': epoch or [float(s) for s in stamps],
                 'mode': mode, 'text': rng.choice(FORMULAS), 'values': lang.gen_values(rng, n, 'small'),
                 'after_reset': self._after_reset,
                 'preconfig': ([period * rng.choice([1, 2]), punit, rng.choice([t for t in TOLS if t != tol])]
@@ -82,6 +96,8 @@ class C13(Prop):
         period, punit = case['period']
         unit, tol, stamps = case['unit'], case['tol'], case['stamps']
         n = len(stamps)
+        if all(isinstance(s, int) for s in stamps):
+            v.info['class:epoch-integer-stamps'] = 1
         if any(Fr(s) != Fr(s).limit_denominator(2 ** 40) for s in stamps):
             v.skip = 'stamp not exactly representable'
             return v
@@ -132,6 +148,8 @@ class C13(Prop):
         try:
             m2 = drive.Mon(kind, sd)
             ideal = [float(Fr(i) * P) for i in range(n)]
+            if all(isinstance(s, int) for s in stamps) and P.denominator == 1:
+                ideal = [int(Fr(i) * P) for i in range(n)]
             if case['mode'].startswith('online'):
                 out2 = [m2.update(ideal[i], [('x', vals[i])]) for i in range(n)]
             else:
